@@ -284,6 +284,51 @@ pub fn run(tier: Tier) -> i32 {
             }
         }
     }
+    // result codes that do not fit the caller's 32 bits, or have no content octets, must not be
+    // handed over as some other code: the operation fails (decoding error)
+    for (ki, kind) in [OpKind::Bind, OpKind::Compare, OpKind::Delete, OpKind::Extended, OpKind::Add, OpKind::Modify, OpKind::ModDn].iter().enumerate() {
+        for (label, rc_octets) in [("empty", vec![]), ("2^32", vec![1u8, 0, 0, 0, 0]), ("2^32+49", vec![1, 0, 0, 0, 49]), ("2^40", vec![1, 0, 0, 0, 0, 0]), ("2^64", vec![1, 0, 0, 0, 0, 0, 0, 0, 0]), ("00 ffffffff", vec![0, 0xff, 0xff, 0xff, 0xff])] {
+            let tag = [1u32, 15, 11, 24, 9, 7, 13][ki];
+            let m = Msg { id: 1, op: mk_op(tag, Res::new(0, "", ""), None, None, None), controls: None };
+            let mut t = m.to_tlv();
+            if let ber::Body::Cons(top) = &mut t.body {
+                if let ber::Body::Cons(op) = &mut top[1].body {
+                    op[0].body = ber::Body::Prim(rc_octets.clone());
+                }
+            }
+            let bytes = ber::encode(&t);
+            let mut s = Scenario::new(&format!("C03/through-driver/{:?}/rc-octets-{}", kind, label));
+            s.clients = vec![ClientSpec { script: vec![Call::Single { kind: kind.clone(), marker: "m".into(), timeout: None, ctrl: false }], free: 0 }];
+            s.plans.insert("m".into(), Plan { silent: true, ..Default::default() });
+            s.raw_inject = Some(bytes.clone());
+            s.oracles = Oracles::default();
+            let mut path = vec![Action::Do(0), Action::PollD(1), Action::Inject, Action::PollD(3)];
+            let scn = Arc::new(s.clone());
+            let mut o = run_path(&scn, &path, false);
+            for _ in 0..6 {
+                match o.enabled.iter().find(|a| matches!(a, Action::PollC(_) | Action::PollD(_))).cloned() {
+                    Some(a) => {
+                        path.push(a);
+                        o = run_path(&scn, &path, false);
+                    }
+                    None => break,
+                }
+            }
+            lane_b += 1;
+            let fits = label == "00 ffffffff";
+            match o.logs[0].first().map(|x| &x.ret) {
+                Some(Ret::Err(_, _)) if !fits => {}
+                Some(Ret::Res(r)) | Some(Ret::Exop(r, _, _)) if fits && r.rc == u32::MAX => {}
+                other => {
+                    rep.violation(
+                        "result:out-of-range-rc-accepted",
+                        &format!("[{}] the server sent result code octets {:?}; the caller got {:?}", s.name, rc_octets, other),
+                        json!({"engine":"e1","scenario":s,"path":path}),
+                    );
+                }
+            }
+        }
+    }
     // search done through stream + search()
     for rc in [0u32, 4, 10, 32] {
         for chain in [Some(Chain::Direct), Some(Chain::EntriesOnly), None] {
